@@ -820,7 +820,7 @@ class BinaryCircuit(object):
             # Target k
             self.phi[k] = self.phi[k] + np.pi/2
 
-            self.apply(gate=the_gate, i=i, j=k)
+            self.apply(gate=the_gate, i=k, j=i)
 
         return
 
